@@ -12,7 +12,7 @@ from common import Check, main_wrapper
 def main():
     ck = Check("C02", "translation_validation")
     ck.lean_stage(["VelaVerif.Props.C02"])
-    outs, lines, owners, answers = stream_checks.run(ck, "C02", 48, 900, None)
+    outs, lines, owners, answers = stream_checks.run(ck, "C02", 288, 6000, None)
     programs = 0
     nontrivial = set()
     accesses = 0
